@@ -2,7 +2,7 @@
    Model: [resolve] / [resolve_finish] / [ptr_get] of Expand/Expand.v (resolveRef, jsonpointer). *)
 From Coq Require Import List String Ascii Bool.
 From Spec Require Import Base.Json Base.Url Codec.Types Codec.Codec Expand.Expand Expand.ExpandFacts
-  Expand.ExpandSim Expand.ExpandSimCheck Expand.ExpandCycle Expand.ExpandElem.
+  Expand.ExpandSim Expand.ExpandSimCheck Expand.ExpandCycle Expand.ExpandElem Base.UrlText Expand.PointerText.
 Import ListNotations.
 Local Open Scope string_scope.
 
@@ -36,6 +36,28 @@ Print Assumptions C05_root_irrelevant_for_url_refs.
 Theorem C05_token_escapes : forall s, unescape_tok (escape_tok s) = s /\ mem_char "/"%char (escape_tok s) = false.
 Proof. exact (fun s => conj (unescape_escape_tok s) (escape_tok_no_slash s)). Qed.
 Print Assumptions C05_token_escapes.
+
+(* ---- pointers as texts, unbounded (Expand/PointerText.v) ----
+   writing ANY list of tokens as a pointer ("~" as ~0, "/" as ~1, tokens joined by "/") and reading the pointer gives the
+   tokens back: whatever characters the tokens hold, however many there are *)
+Theorem C05_pointer_text_roundtrip : forall toks, ptr_tokens (ptr_text toks) = map l2s toks.
+Proof. exact ptr_tokens_of_text. Qed.
+Print Assumptions C05_pointer_text_roundtrip.
+
+(* ... and through the reference text: "#/t1/t2/..." read by url.Parse (as modelled) is a fragment-only reference whose
+   fragment evaluates to exactly those tokens, for tokens of letters, digits, - _ . ~ and "/" *)
+Theorem C05_fragment_reference_tokens : forall toks, Forall (fun t => forallb tokchar t = true) toks ->
+  match parse_url ("#"%char :: ptr_text toks) with
+  | POk u => ptr_tokens (u_frag u) = map l2s toks /\ u_path u = [] /\ u_scheme u = [] /\ u_host u = []
+  | _ => toks = []
+  end.
+Proof. exact fragment_reference_tokens. Qed.
+Print Assumptions C05_fragment_reference_tokens.
+
+Example C05_pointer_text_example :
+  ptr_text [s2l "definitions"; s2l "a/b"; s2l "c~d"; s2l "~1"] = s2l "/definitions/a~1b/c~0d/~01"
+  /\ ptr_tokens (s2l "/definitions/a~1b/c~0d/~01") = ["definitions"; "a/b"; "c~d"; "~1"].
+Proof. exact pointer_text_example. Qed.
 
 (* resolution is shallow and never runs out of anything: it has no fuel *)
 Theorem C05_no_fuel : forall E docs cwd live s rroot ref base kind, resolve E docs cwd live s rroot ref base kind <> OOF.
